@@ -109,6 +109,7 @@ def run(ctx):
     rng = ctx.rng
     gen = Gen(schema, rng, max_depth=2)
     gen.p_posexp = 0.03
+    gen.deep_entities = True   # instances holding literal entity spellings: escaping must be undone exactly once
     gen.p_tz = 0.35          # aware values with whole/fractional, positive/negative offsets: equality is by instant
     classes = concrete_classes(schema)
     client = OFXClient("https://example.com/ofx", userid="u")
